@@ -1,4 +1,318 @@
-import GcmpyModel.Model.Algebra
+import GcmpyModel.Lemmas.Algebra
+/-!
+# C14 — degree-distribution algebra
+
+Model: `GcmpyModel/Model/Algebra.lean`; helper lemmas and vocabulary: `GcmpyModel/Lemmas/Algebra.lean`.
+
+Vocabulary (defined in the lemma file), for a table `P : Table = List (JD × Rat)`:
+* `Uniform P T`      every key is a `T`-tuple;  well formed = `Uniform P T` and `(Dict.keys P).Nodup`
+* `mean P i`         `Σ_k k[i] · P(k)`                        (`k[i]` is `k.getD i 0`)
+* `massPos P i`      `Z_i = Σ_{k[i] > 0} P(k)`
+* `massAnyPos P`     `Z   = Σ_{k ≠ 0} P(k)`                   (`anyPos k` ↔ some component of `k` is positive)
+* `bottomOf q i`     `Σ_k q(k) / (k[i] + 1)`                  (the constant of `invert_single`)
+* `rowSum ejk ks a`  `Σ_{b ∈ ks} ejk(a ++ b)`                 (absent entries count 0)
+
+Entries are addressed as members `kp ∈ P` (`kp.1` the key, `kp.2 = P(kp.1)` its mass).
+-/
 namespace Gcmpy.Algebra
-theorem placeholder_c14 : True := trivial
+open Gcmpy Gcmpy.Loaders
+
+/-! ## 1. mean joint degree -/
+
+/-- the mean joint degree is the `P`-weighted mean of every component -/
+theorem average_value (P : Table) (T : Nat) (hne : P ≠ []) (hu : Uniform P T) :
+    averages P = some ((List.range T).map fun i =>
+      (P.map fun kp => ((kp.1.getD i 0 : Nat) : Rat) * kp.2).sum) :=
+  averages_eq P T hne hu
+
+/-- `IndexError` on the empty table -/
+theorem average_empty : averages [] = none := rfl
+
+/-! ## 2. excess distributions -/
+
+/-- one excess table per topology -/
+theorem excess_length {P : Table} {T : Nat} {qs : List Table} (hu : Uniform P T)
+    (hn : (Dict.keys P).Nodup) (h : excessFromJdd P = some qs) : qs.length = T := by
+  obtain ⟨_, rfl, _⟩ := excessFromJdd_some hu hn h
+  simp
+
+/-- the tables are, literally, `filter` + `map`s of the input -/
+theorem excess_tables {P : Table} {T : Nat} {qs : List Table} (hu : Uniform P T)
+    (hn : (Dict.keys P).Nodup) (h : excessFromJdd P = some qs) :
+    qs = (List.range T).map fun i =>
+      (P.filter fun kp => decide (kp.1.getD i 0 > 0)).map fun kp =>
+        (kp.1.modify i (· - 1), (((kp.1.getD i 0 : Nat) : Rat) * kp.2) / mean P i) :=
+  (excessFromJdd_some hu hn h).2.1
+
+/-- `q_i(k - e_i) = k[i] · P(k) / ⟨k_i⟩` for every key `k` of `P` with `k[i] > 0` -/
+theorem excess_value {P : Table} {T : Nat} {qs : List Table} (hu : Uniform P T)
+    (hn : (Dict.keys P).Nodup) (h : excessFromJdd P = some qs) (i : Nat) (q : Table)
+    (hq : qs[i]? = some q) (kp : JD × Rat) (hkp : kp ∈ P) (hpos : kp.1.getD i 0 > 0) :
+    Dict.get q (kp.1.modify i (· - 1)) = some ((((kp.1.getD i 0 : Nat) : Rat) * kp.2) / mean P i) := by
+  obtain ⟨_, rfl, _⟩ := excessFromJdd_some hu hn h
+  obtain ⟨_, rfl⟩ := getElem?_map_range _ _ _ _ hq
+  exact get_exTable P i hn kp hkp hpos
+
+/-- … and the table has no other keys; its keys are distinct -/
+theorem excess_support {P : Table} {T : Nat} {qs : List Table} (hu : Uniform P T)
+    (hn : (Dict.keys P).Nodup) (h : excessFromJdd P = some qs) (i : Nat) (q : Table)
+    (hq : qs[i]? = some q) :
+    (Dict.keys q).Nodup ∧
+    ∀ k', k' ∈ Dict.keys q ↔ ∃ k ∈ Dict.keys P, k.getD i 0 > 0 ∧ k' = k.modify i (· - 1) := by
+  obtain ⟨_, rfl, _⟩ := excessFromJdd_some hu hn h
+  obtain ⟨_, rfl⟩ := getElem?_map_range _ _ _ _ hq
+  exact ⟨nodup_keys_exTable P i hn, mem_keys_exTable P i⟩
+
+/-- every excess table with a non-zero mean is normalised -/
+theorem excess_sums_one {P : Table} {T : Nat} {qs : List Table} (hu : Uniform P T)
+    (hn : (Dict.keys P).Nodup) (h : excessFromJdd P = some qs) (i : Nat) (q : Table)
+    (hq : qs[i]? = some q) (hm : mean P i ≠ 0) : (q.map (·.2)).sum = 1 := by
+  obtain ⟨_, rfl, _⟩ := excessFromJdd_some hu hn h
+  obtain ⟨_, rfl⟩ := getElem?_map_range _ _ _ _ hq
+  exact sum_exTable P i hm
+
+/-- the code raises exactly on the empty table (`IndexError`) or when some topology has mean 0 although a key
+    with a positive component in it is present (`ZeroDivisionError`) -/
+theorem excess_error_iff (P : Table) (T : Nat) (hu : Uniform P T) (hn : (Dict.keys P).Nodup) :
+    excessFromJdd P = none ↔
+      P = [] ∨ ∃ i, i < T ∧ mean P i = 0 ∧ ∃ k ∈ Dict.keys P, k.getD i 0 > 0 := by
+  by_cases hne : P = []
+  · subst hne; simp [excessFromJdd_nil]
+  · rw [excessFromJdd_eq P T hne hu hn]
+    simp only [hne, false_or, ← filter_posAt_ne_nil_iff]
+    split
+    · next h => simp only [true_iff]; exact h
+    · next h => simp only [reduceCtorEq, false_iff]; exact h
+
+/-! ## 6. joint degree distribution of a network -/
+
+theorem jdd_from_network_value (jds : List JD) (k : JD) :
+    Dict.get (jddFromNetwork jds) k =
+      if k ∈ jds then some ((jds.count k : Rat) / (jds.length : Rat)) else none := by
+  rw [jddFromNetwork_eq, get_accum]
+  simp only [Dict.keys, List.map_nil, List.not_mem_nil, or_false, Dict.get, Option.getD_none, zero_add,
+    mul_one_div]
+
+theorem jdd_from_network_sums_one (jds : List JD) (h : jds ≠ []) :
+    ((jddFromNetwork jds).map (·.2)).sum = 1 := by
+  rw [jddFromNetwork_eq, sum_vals_accum]
+  have : (jds.length : Rat) ≠ 0 := by
+    have : jds.length ≠ 0 := by simpa using h
+    exact_mod_cast this
+  simp only [List.map_nil, List.sum_nil, zero_add]
+  field_simp
+
+theorem jdd_from_network_keys_nodup (jds : List JD) : (Dict.keys (jddFromNetwork jds)).Nodup := by
+  rw [jddFromNetwork_eq]; exact nodup_keys_accum _ jds [] (by simp [Dict.keys])
+
+/-- accumulating `1/n` agrees, entry by entry, with the loaders' `Counter`-based frequency table -/
+theorem jdd_from_network_eq_empirical (jds : List JD) (k : JD) :
+    Dict.get (jddFromNetwork jds) k = Dict.get (empirical jds) k := by
+  rw [jdd_from_network_value, aux_empirical_freq]
+
+/-! ## 5. row sums of the mixing matrices -/
+
+/-- the `j`-th output is named like the `j`-th matrix and maps every listed first half `a` that occurs in
+    the matrix to `Σ_b ejk(a ++ b)`; nothing else is a key -/
+theorem row_sums_are_excess {ejks : List (String × Table)} {keys : List (String × List JD)}
+    {qs : List (String × Table)} (h : excessFromEjk ejks keys = some qs) (j : Nat)
+    (hj : j < ejks.length) (ks : List JD) (hk : Dict.get keys ejks[j].1 = some ks) (hnd : ks.Nodup) :
+    ∃ q, qs[j]? = some (ejks[j].1, q) ∧
+      (∀ a, a ∈ ks → (∃ b ∈ ks, a ++ b ∈ Dict.keys ejks[j].2) →
+        Dict.get q a = some ((ks.map fun b => (Dict.get ejks[j].2 (a ++ b)).getD 0).sum)) ∧
+      (∀ a, ¬ (a ∈ ks ∧ ∃ b ∈ ks, a ++ b ∈ Dict.keys ejks[j].2) → Dict.get q a = none) := by
+  obtain ⟨_, hlen, hall⟩ := excessFromEjk_some h
+  have hj' : j < qs.length := hlen ▸ hj
+  obtain ⟨ks', hk', hq⟩ := hall j hj hj'
+  rw [hk] at hk'
+  have : ks' = ks := (Option.some.inj hk').symm
+  subst this
+  refine ⟨rowOuter ejks[j].2 ks' ks' [], ?_, ?_, ?_⟩
+  · rw [List.getElem?_eq_getElem hj', hq]
+  · intro a ha hb
+    rw [get_rowTable _ _ _ hnd, if_pos ⟨ha, (hasRow_iff _ _ _).2 hb⟩]; rfl
+  · intro a hno
+    rw [get_rowTable _ _ _ hnd, if_neg]
+    rintro ⟨ha, hb⟩
+    exact hno ⟨ha, (hasRow_iff _ _ _).1 hb⟩
+
+/-- when every matrix key is `a ++ b` with both halves listed and of one length `T` (and the matrix keys
+    are distinct), that row sum is the sum of the matrix entries whose first half is `a`:
+    the matrix is summed over its second index -/
+theorem row_sums_over_matrix (ejk : Table) (ks : List JD) (T : Nat) (a : JD) (hnk : ks.Nodup)
+    (hne : (Dict.keys ejk).Nodup) (hlen : ∀ k ∈ ks, k.length = T)
+    (hform : ∀ k ∈ Dict.keys ejk, ∃ a' ∈ ks, ∃ b' ∈ ks, k = a' ++ b') (ha : a ∈ ks) :
+    (ks.map fun b => (Dict.get ejk (a ++ b)).getD 0).sum =
+      ((ejk.filter fun kv => decide (kv.1.take T = a)).map (·.2)).sum :=
+  rowSum_eq_matrix ejk ks T a hnk hne hlen hform ha
+
+/-- the length check of the code -/
+theorem row_sums_length_error (ejks : List (String × Table)) (keys : List (String × List JD))
+    (h : ejks.length ≠ keys.length) : excessFromEjk ejks keys = none := by
+  rw [excessFromEjk_unfold, if_pos h]
+
+/-! ## 3. inverting one excess distribution -/
+
+/-- `invert_single` on a table with distinct keys and non-zero constant (hence non-empty):
+    `P'(k + e_i) = (q(k) / (k[i] + 1)) / bottom`, and no other keys -/
+theorem invert_single_value (q : Table) (i : Nat) (hn : (Dict.keys q).Nodup)
+    (hb : bottomOf q i ≠ 0) :
+    ∃ P', invertSingle q i = some P' ∧
+      (∀ kq ∈ q, Dict.get P' (kq.1.modify i (· + 1)) =
+        some ((kq.2 / (((kq.1.getD i 0 + 1 : Nat)) : Rat)) /
+          (q.map fun kq => kq.2 / (((kq.1.getD i 0 + 1 : Nat)) : Rat)).sum)) ∧
+      (Dict.keys P').Nodup ∧
+      (∀ k', k' ∈ Dict.keys P' ↔ ∃ k ∈ Dict.keys q, k' = k.modify i (· + 1)) := by
+  have hne : q ≠ [] := by rintro rfl; exact hb rfl
+  refine ⟨invTable q i, ?_, ?_, nodup_keys_invTable q i hn, ?_⟩
+  · rw [invertSingle_eq q i hn, if_neg hne, if_neg hb]
+  · intro kq hkq; exact get_invTable q i hn kq hkq
+  · intro k'
+    rw [keys_invTable, List.mem_map]
+    constructor
+    · rintro ⟨k, hk, rfl⟩; exact ⟨k, hk, rfl⟩
+    · rintro ⟨k, hk, rfl⟩; exact ⟨k, hk, rfl⟩
+
+/-- the other two branches: `{}` for an empty table, `ZeroDivisionError` for a zero constant -/
+theorem invert_single_branches (q : Table) (i : Nat) (hn : (Dict.keys q).Nodup) :
+    (q = [] → invertSingle q i = some []) ∧
+    (q ≠ [] → bottomOf q i = 0 → invertSingle q i = none) := by
+  rw [invertSingle_eq q i hn]
+  constructor
+  · intro h; rw [if_pos h]
+  · intro h hb; rw [if_neg h, if_pos hb]
+
+/-- inverting the `i`-th excess table of `P` gives `P` conditioned on `k[i] > 0`:
+    `P_i(k) = P(k) / Z_i` on the keys of `P` with `k[i] > 0`, and nothing else -/
+theorem invert_of_excess {P : Table} {T : Nat} {qs : List Table} (hu : Uniform P T)
+    (hn : (Dict.keys P).Nodup) (h : excessFromJdd P = some qs) (i : Nat) (q : Table)
+    (hq : qs[i]? = some q) (hm : mean P i ≠ 0) (hz : massPos P i ≠ 0) :
+    ∃ Pi, invertSingle q i = some Pi ∧
+      (∀ kp ∈ P, kp.1.getD i 0 > 0 → Dict.get Pi kp.1 = some (kp.2 / massPos P i)) ∧
+      (Dict.keys Pi).Nodup ∧
+      (∀ k, k ∈ Dict.keys Pi ↔ k ∈ Dict.keys P ∧ k.getD i 0 > 0) := by
+  obtain ⟨_, rfl, _⟩ := excessFromJdd_some hu hn h
+  obtain ⟨_, rfl⟩ := getElem?_map_range _ _ _ _ hq
+  refine ⟨restrictScale P (posAt i) (massPos P i), invertSingle_exTable P i hn hm hz, ?_,
+    nodup_keys_restrictScale P _ _ hn, ?_⟩
+  · intro kp hkp hpos
+    rw [get_restrictScale, if_pos ((posAt_iff i kp.1).2 hpos), Dict.get_of_mem P hn kp hkp]; rfl
+  · intro k
+    rw [keys_restrictScale, List.mem_filter, posAt_iff]
+
+/-! ## 4. the main theorem: excess tables determine `P` up to its mass at `0` -/
+
+/-- Let `P` be well formed with `T ≥ 1` topologies, `names` any `T` pairwise distinct topology names, all
+    means, all `Z_i` and `Z` non-zero.  For EVERY admissible common key (a key of `P` positive in every
+    topology, with non-zero mass) the inversion of the excess tables of `P` succeeds and returns
+    `P` conditioned on `k ≠ 0`: `R(k) = P(k) / Z` on the keys of `P` with a positive component, and nothing
+    else; in particular `R` sums to one. -/
+theorem invert_excess (P : Table) (T : Nat) (names : List String) (qs : List Table)
+    (common : JD) (pc : Rat)
+    (hu : Uniform P T) (hn : (Dict.keys P).Nodup) (hT : 0 < T)
+    (hnames : names.Nodup) (hlen : names.length = T)
+    (hq : excessFromJdd P = some qs)
+    (hmean : ∀ i, i < T → mean P i ≠ 0) (hZi : ∀ i, i < T → massPos P i ≠ 0)
+    (hZ : massAnyPos P ≠ 0)
+    (hc : (common, pc) ∈ P) (hcpos : ∀ i, i < T → common.getD i 0 > 0) (hpc : pc ≠ 0) :
+    ∃ R, jddFromExcess (names.zip qs) names common = some R ∧
+      (∀ kp ∈ P, (∃ i, kp.1.getD i 0 > 0) → Dict.get R kp.1 = some (kp.2 / massAnyPos P)) ∧
+      (Dict.keys R).Nodup ∧
+      (∀ k, k ∈ Dict.keys R ↔ k ∈ Dict.keys P ∧ ∃ i, k.getD i 0 > 0) ∧
+      (R.map (·.2)).sum = 1 := by
+  obtain ⟨_, rfl, _⟩ := excessFromJdd_some hu hn hq
+  obtain ⟨R, hR, hnd, hget⟩ := jddFromExcess_excess P T names common pc hu hn hT hnames hlen
+    hmean hZi hZ hc hcpos hpc
+  refine ⟨R, hR, ?_, hnd, ?_, ?_⟩
+  · intro kp hkp hpos
+    rw [hget, if_pos ((anyPos_iff' kp.1).2 hpos), Dict.get_of_mem P hn kp hkp]; rfl
+  · intro k
+    rw [← Dict.get_isSome_iff_mem_keys, hget, ← anyPos_iff', ← Dict.get_isSome_iff_mem_keys]
+    cases anyPos k <;> cases Dict.get P k <;> simp
+  · have hperm := Dict.perm_of_get_eq hnd (nodup_keys_restrictScale P anyPos (massAnyPos P) hn)
+      (fun k => by rw [hget, get_restrictScale])
+    rw [(hperm.map (·.2)).sum_eq, sum_restrictScale]
+    exact div_self hZ
+
+/-- the same with the natural sufficient condition: non-negative masses and some key `c`, positive in every
+    topology, of positive mass.  The common key may be any admissible key, not necessarily `c`. -/
+theorem invert_excess_nonneg (P : Table) (T : Nat) (names : List String) (qs : List Table)
+    (common : JD) (pc : Rat) (c : JD) (pc' : Rat)
+    (hu : Uniform P T) (hn : (Dict.keys P).Nodup) (hT : 0 < T)
+    (hnames : names.Nodup) (hlen : names.length = T)
+    (hq : excessFromJdd P = some qs)
+    (hnn : ∀ kp ∈ P, 0 ≤ kp.2)
+    (hc' : (c, pc') ∈ P) (hcpos' : ∀ i, i < T → c.getD i 0 > 0) (hpc' : 0 < pc')
+    (hc : (common, pc) ∈ P) (hcpos : ∀ i, i < T → common.getD i 0 > 0) (hpc : pc ≠ 0) :
+    ∃ R, jddFromExcess (names.zip qs) names common = some R ∧
+      (∀ kp ∈ P, (∃ i, kp.1.getD i 0 > 0) → Dict.get R kp.1 = some (kp.2 / massAnyPos P)) ∧
+      (Dict.keys R).Nodup ∧
+      (∀ k, k ∈ Dict.keys R ↔ k ∈ Dict.keys P ∧ ∃ i, k.getD i 0 > 0) ∧
+      (R.map (·.2)).sum = 1 :=
+  invert_excess P T names qs common pc hu hn hT hnames hlen hq
+    (fun i hi => ne_of_gt (mean_pos P i hnn c pc' hc' (hcpos' i hi) hpc'))
+    (fun i hi => ne_of_gt (massPos_pos P i hnn c pc' hc' (hcpos' i hi) hpc'))
+    (ne_of_gt (massAnyPos_pos P hnn c pc' hc' ((anyPos_iff' c).2 ⟨0, hcpos' 0 hT⟩) hpc'))
+    hc hcpos hpc
+
+/-! ## 7. non-vacuity -/
+
+/-- a two-topology distribution with positive mass at `(0, 0)` -/
+example : averages [([0, 0], 1 / 5), ([1, 0], 1 / 5), ([0, 2], 1 / 10), ([1, 1], 1 / 2)]
+    = some [7 / 10, 7 / 10] := by decide +kernel
+
+example : excessFromJdd [([0, 0], 1 / 5), ([1, 0], 1 / 5), ([0, 2], 1 / 10), ([1, 1], 1 / 2)]
+    = some [[([0, 0], 2 / 7), ([0, 1], 5 / 7)], [([0, 1], 2 / 7), ([1, 0], 5 / 7)]] := by
+  decide +kernel
+
+/-- inversion returns `P` conditioned on `k ≠ 0` (`Z = 4/5`), with an arbitrary first name as reference:
+    the pinned failure of the unrepaired code (a hard-wired reference topology name) is NOT modelled, the
+    model uses `names.head?` -/
+example :
+    jddFromExcess
+      (["a", "2-clique-blue"].zip [[([0, 0], 2 / 7), ([0, 1], 5 / 7)], [([0, 1], 2 / 7), ([1, 0], 5 / 7)]])
+      ["a", "2-clique-blue"] [1, 1]
+    = some [([1, 0], 1 / 4), ([1, 1], 5 / 8), ([0, 2], 1 / 8)] := by decide +kernel
+
+example :
+    jddFromExcess
+      (["2-clique-blue", "a"].zip [[([0, 0], 2 / 7), ([0, 1], 5 / 7)], [([0, 1], 2 / 7), ([1, 0], 5 / 7)]])
+      ["2-clique-blue", "a"] [1, 1]
+    = some [([1, 0], 1 / 4), ([1, 1], 5 / 8), ([0, 2], 1 / 8)] := by decide +kernel
+
+/-- the hypotheses of `invert_excess_nonneg` hold for that table -/
+example : ∃ R, jddFromExcess (["a", "2-clique-blue"].zip
+      [[([0, 0], 2 / 7), ([0, 1], 5 / 7)], [([0, 1], 2 / 7), ([1, 0], 5 / 7)]]) ["a", "2-clique-blue"] [1, 1]
+      = some R ∧ (R.map (·.2)).sum = 1 := by
+  obtain ⟨R, h, _, _, _, hs⟩ := invert_excess_nonneg
+    [([0, 0], 1 / 5), ([1, 0], 1 / 5), ([0, 2], 1 / 10), ([1, 1], 1 / 2)] 2 ["a", "2-clique-blue"]
+    [[([0, 0], 2 / 7), ([0, 1], 5 / 7)], [([0, 1], 2 / 7), ([1, 0], 5 / 7)]] [1, 1] (1 / 2) [1, 1] (1 / 2)
+    (by unfold Uniform; decide +kernel) (by decide +kernel) (by decide) (by decide +kernel) rfl
+    (by decide +kernel) (by decide +kernel)
+    (by decide +kernel) (by decide +kernel) (by decide +kernel)
+    (by decide +kernel) (by decide +kernel) (by decide +kernel)
+  exact ⟨R, h, hs⟩
+
+/-- `Z ≠ 0` cannot be dropped from `invert_excess` when masses may be negative: here all means and all `Z_i`
+    are `-1`, `Z = 0`, and the final renormalisation divides by zero -/
+example : jddFromExcess (["a", "b"].zip [[([0, 0], -1), ([0, 1], 2)], [([0, 0], -1), ([1, 0], 2)]])
+    ["a", "b"] [1, 1] = none := by decide +kernel
+example : excessFromJdd [([1, 0], 1), ([0, 1], 1), ([1, 1], -2)]
+    = some [[([0, 0], -1), ([0, 1], 2)], [([0, 0], -1), ([1, 0], 2)]] := by decide +kernel
+
+/-- error branches of `excessFromJdd`: a zero mean is harmless without positive components, fatal with -/
+example : excessFromJdd [([0, 0], 1)] = some [[], []] := by decide +kernel
+example : excessFromJdd [([1], 1), ([2], -1 / 2)] = none := by decide +kernel
+example : excessFromJdd [] = none := rfl
+
+example : invertSingle [([0, 0], 1 / 2), ([0, 1], 1 / 2)] 0 = some [([1, 0], 1 / 2), ([1, 1], 1 / 2)] := by
+  decide +kernel
+example : invertSingle [([0], 1), ([1], -2)] 0 = none := by decide +kernel
+
+example : excessFromEjk [("t", [([0, 0, 0, 1], 1 / 4), ([0, 1, 0, 0], 1 / 4), ([0, 1, 0, 1], 1 / 2)])]
+    [("t", [[0, 0], [0, 1]])] = some [("t", [([0, 0], 1 / 4), ([0, 1], 3 / 4)])] := by decide +kernel
+
+example : jddFromNetwork [[1, 0], [1, 0], [0, 2]] = [([1, 0], 2 / 3), ([0, 2], 1 / 3)] := by
+  decide +kernel
+
 end Gcmpy.Algebra
